@@ -118,7 +118,8 @@ def check_c15(case, stats):
       # far from the origin the library's projections (X B^T, then differences) carry eps * offset/spread of relative
       # error (measured worst case 3e-9 at 1e4, 2e-8 at 1e5 on the unchanged tree; an expanded-squares variant gives
       # 7e-6 and 3e-3): the tolerance grows linearly with that ratio
-      wtol = 1e-8 * (1.0 + case.get('offset', 0.0) / 1e3)
+      # (the ratio that matters is offset / smallest spread: anisotropic data - desc cond - is that much thinner)
+      wtol = 1e-8 * (1.0 + case.get('offset', 0.0) * case['desc'].get('cond', 1) / 1e3)
       if np.abs(wr - w).max() <= wtol * max(np.abs(wr).max(), 1e-300) + 1e-300:
         ok = True
   if not ok:
